@@ -8,7 +8,10 @@ publishers. If the subscribers can accept data it finishes, within `work s + 1` 
 point everything it had taken from a publisher is handed over and flushed.
 -/
 import SeliumModel.Lemmas.PubSubHealthy
+import SeliumModel.Lemmas.PubSubSettle
 import SeliumModel.Lemmas.ReqRepMore
+import SeliumModel.Lemmas.ReqRepClosed
+import SeliumModel.Lemmas.System
 
 namespace Selium.Route
 open Selium.Sink
@@ -45,47 +48,23 @@ theorem c16_pubsub_finishes_flushed (fuel : Nat) (oracle : List Nat) (s : PS α)
 /-- a Pending sink only delays it: blocked means a sink answered Pending, i.e. it will wake the task -/
 theorem c16_pubsub_blocked_then_retry (oracle : List Nat) (s : PS α) (hc : s.closed = true) :
     (pollFuel (work s + 1) oracle s).2.1.closed = true := by
-  have : ∀ fuel (o : List Nat) (s : PS α), (pollFuel fuel o s).2.1.closed = s.closed := by
-    intro fuel
-    induction fuel with
-    | zero => intro o s; rfl
-    | succ fuel ih =>
-      have hs : ∀ (o : List Nat) (s : PS α), (streamPart o s (pollFuel fuel)).2.1.closed = s.closed := by
-        intro o s
-        unfold streamPart
-        rcases hsm : smPoll (o.headD 0) s.streams with ⟨r, es, evs⟩
-        cases r with
-        | item sid x => simp only; rw [ih]
-        | error sid => simp only; rw [ih]
-        | none =>
-          simp only
-          cases hfl : (flushSinks { s with streams := es }).1 with
-          | pending => rfl
-          | ready => simp only; rw [ih]; rfl
-        | pending => rfl
-      have hh : ∀ (o : List Nat) (s : PS α), (handlePart o s (pollFuel fuel)).2.1.closed = s.closed := by
-        intro o s
-        unfold handlePart
-        cases hq : s.queue with
-        | cons sock q => simp only; rw [ih]; unfold adopt; cases sock <;> rfl
-        | nil =>
-          simp only
-          by_cases hc : s.closed = true
-          · rw [if_pos hc]; cases (flushSinks s).1 <;> rfl
-          · rw [if_neg hc]
-            by_cases he : (s.streams.isEmpty && s.buffered.isNone) = true
-            · rw [if_pos he]; rfl
-            · rw [if_neg he]; rw [hs]
-      intro o s
-      unfold pollFuel
-      cases hx : s.buffered with
-      | some x =>
-        simp only
-        cases hrd : (pollReady s.sinks).1 with
-        | pending => rfl
-        | ready => simp only; rw [hh]
-      | none => simp only; rw [hh]
-  rw [this]; exact hc
+  rw [pollFuel_keeps_closed]; exact hc
+
+/-- "Shutdown therefore cannot hang on a topic." From ANY reachable state in which the channel has been closed,
+    whatever the subscribers answer (any finite run of Pending answers, errors, at readiness or flush) and
+    whatever `StreamMap` chooses: the wake-driven executor (`runPolls`: a poll happens only because a sink that
+    answered Pending fired the waker) reaches `Poll::Ready(())` after at most `measure s` further polls, and at
+    that point every subscriber still registered has been handed, and had flushed, every message the router had
+    taken from a publisher since that subscriber's registration. -/
+theorem c16_pubsub_shutdown_completes (history : List (Event α)) (hc : (exec history).closed = true)
+    (orc : Nat → List Nat) :
+    ∃ n, n ≤ measure (exec history) ∧
+      (pollFuel (work (runPolls orc n (exec history)) + 1) (orc n) (runPolls orc n (exec history))).1 = .done ∧
+      ∀ k ∈ (pollFuel (work (runPolls orc n (exec history)) + 1) (orc n) (runPolls orc n (exec history))).2.1.sinks,
+        k.got = (pollFuel (work (runPolls orc n (exec history)) + 1) (orc n) (runPolls orc n (exec history))).2.1.accepted.drop k.regAt ∧
+        k.flushed = k.got.length := by
+  obtain ⟨n, hn, hd⟩ := runPolls_closed_finishes (exec history) hc orc
+  exact ⟨n, hn, hd, c16_pubsub_finishes_flushed _ _ _ (runPolls_inv orc n _ (exec_inv history)) hd⟩
 
 /-! Non-vacuity: closing mid-delivery (an item buffered, a socket still queued, a publisher that is idle). -/
 example :
@@ -159,68 +138,6 @@ theorem c16_reqrep_closed_outcome (s : RR) (hc : s.closed = true) :
   · exact Or.inr (Or.inr (Or.inr h))
   · exact absurd h (rrPoll_terminates (rwork s + 1) s (Nat.lt_succ_self _))
 
-/-! ### after the channel is closed the router takes nothing more from its peers' streams -/
-
-def Keeps (t s' : RR) : Prop := s'.taken = t.taken ∧ s'.repTaken = t.repTaken
-
-theorem partA_keeps (t : RR) : Keeps t (partA t).state := by
-  unfold partA Keeps
-  split
-  · split
-    · exact ⟨rfl, rfl⟩
-    · exact ⟨rfl, rfl⟩
-    · split <;> exact ⟨rfl, rfl⟩
-  · exact ⟨rfl, rfl⟩
-
-theorem partB_keeps (t : RR) : Keeps t (partB t).state := by
-  unfold partB Keeps
-  split
-  · exact ⟨rfl, rfl⟩
-  · split
-    · split
-      · exact ⟨rfl, rfl⟩
-      · exact ⟨rfl, rfl⟩
-      · split <;> exact ⟨rfl, rfl⟩
-    · split
-      · exact ⟨rfl, rfl⟩
-      · exact ⟨rfl, rfl⟩
-
-theorem partH_keeps (t : RR) (ht : t.closed = true) : Keeps t (partH t).state := by
-  unfold partH Keeps
-  split
-  · show (adoptSock t _ _).taken = t.taken ∧ (adoptSock t _ _).repTaken = t.repTaken
-    unfold adoptSock
-    split
-    · exact ⟨rfl, rfl⟩
-    · split <;> exact ⟨rfl, rfl⟩
-  · rw [if_pos ht]
-    split <;> exact ⟨rfl, rfl⟩
-
-theorem iter_keeps (s : RR) (hc : s.closed = true) : Keeps s (iter s).state := by
-  unfold iter
-  have k1 := partA_keeps { s with serverPending := s.server.isNone, streamPending := false }
-  have h1 := partA_closed { s with serverPending := s.server.isNone, streamPending := false } hc
-  cases ha : partA { s with serverPending := s.server.isNone, streamPending := false } with
-  | ret o s' => rw [ha] at k1; exact k1
-  | again s' => rw [ha] at h1; exact absurd h1 id
-  | next s1 =>
-    rw [ha] at h1 k1
-    simp only [Flow.andThen]
-    have k2 := partB_keeps s1
-    have h2 := partB_closed s1 h1
-    cases hb : partB s1 with
-    | ret o s' => rw [hb] at k2; exact ⟨k2.1.trans k1.1, k2.2.trans k1.2⟩
-    | again s' => rw [hb] at k2; exact ⟨k2.1.trans k1.1, k2.2.trans k1.2⟩
-    | next s2 =>
-      rw [hb] at h2 k2
-      simp only
-      have k3 := partH_keeps s2 h2
-      have h3 := partH_closed s2 h2
-      cases hh : partH s2 with
-      | ret o s' => rw [hh] at k3; exact ⟨(k3.1.trans k2.1).trans k1.1, (k3.2.trans k2.2).trans k1.2⟩
-      | again s' => rw [hh] at k3; exact ⟨(k3.1.trans k2.1).trans k1.1, (k3.2.trans k2.2).trans k1.2⟩
-      | next s' => rw [hh] at h3; exact absurd h3 id
-
 /-- Once the channel is closed a poll of the request/reply router, with any fuel and from any state, takes no
     further request from a requestor and no further reply from a replier: shutdown does not wait for the peers to
     run dry (what it had accepted before is dealt with as `c16_reqrep_closed_outcome` says). -/
@@ -245,10 +162,47 @@ example : (rrPoll 20 ({ closed := true, bufReq := some (.msg none 1), queue := [
 
 end Selium.Route
 
+/-! ## The server's shutdown (`Server::shutdown`): every topic's channel is closed, every pub/sub router finishes -/
+namespace Selium.Server
+open Selium.Route Selium.Sink
+
+/-- `topics.values_mut().for_each(|t| t.close_channel())`: after shutdown the registration channel of every topic
+    the server knows — of either messaging pattern — is closed. -/
+theorem c16_shutdown_closes_every_topic (history : List SEvent) (n : Name) :
+    ((sysExec history).registry.lookup n = some .pubsub → ((sysExec (history ++ [.shutdown])).ps n).closed = true) ∧
+    ((sysExec history).registry.lookup n = some .reqrep → ((sysExec (history ++ [.shutdown])).rr n).closed = true) := by
+  rw [sysExec_snoc]
+  constructor
+  · intro h; simp [sysApply, h, applyEvent]
+  · intro h; simp [sysApply, h, rrApply]
+
+/-- Shutdown cannot hang on a pub/sub topic of a running server: whatever the server's history (any names, peers,
+    scripts, traffic in flight, registrations still queued), once `shutdown` has happened every pub/sub topic's
+    router reaches `Poll::Ready(())` under the wake-driven executor after at most `measure` further polls, having
+    handed over and flushed every message it had taken from a publisher. -/
+theorem c16_server_shutdown_every_pubsub_topic_completes (history : List SEvent) (n : Name)
+    (hreg : (sysExec history).registry.lookup n = some .pubsub) (orc : Nat → List Nat) :
+    ∃ k, k ≤ measure ((sysExec (history ++ [.shutdown])).ps n) ∧
+      (pollFuel (work (runPolls orc k ((sysExec (history ++ [.shutdown])).ps n)) + 1) (orc k)
+        (runPolls orc k ((sysExec (history ++ [.shutdown])).ps n))).1 = .done ∧
+      ∀ c ∈ (pollFuel (work (runPolls orc k ((sysExec (history ++ [.shutdown])).ps n)) + 1) (orc k)
+              (runPolls orc k ((sysExec (history ++ [.shutdown])).ps n))).2.1.sinks,
+        c.got = (pollFuel (work (runPolls orc k ((sysExec (history ++ [.shutdown])).ps n)) + 1) (orc k)
+              (runPolls orc k ((sysExec (history ++ [.shutdown])).ps n))).2.1.accepted.drop c.regAt ∧
+        c.flushed = c.got.length := by
+  have hc := (c16_shutdown_closes_every_topic history n).1 hreg
+  rw [sys_ps_is_router] at hc ⊢
+  exact c16_pubsub_shutdown_completes _ hc orc
+
+end Selium.Server
+
 #print axioms Selium.Route.c16_pubsub_closed_outcome
 #print axioms Selium.Route.c16_pubsub_finishes
 #print axioms Selium.Route.c16_pubsub_finishes_flushed
 #print axioms Selium.Route.c16_pubsub_blocked_then_retry
+#print axioms Selium.Route.c16_pubsub_shutdown_completes
 #print axioms Selium.Route.c16_pubsub_closed_takes_nothing_more
 #print axioms Selium.Route.c16_reqrep_closed_outcome
 #print axioms Selium.Route.c16_reqrep_closed_takes_nothing_more
+#print axioms Selium.Server.c16_shutdown_closes_every_topic
+#print axioms Selium.Server.c16_server_shutdown_every_pubsub_topic_completes
